@@ -351,6 +351,18 @@ def run_trivial(case):
         if len(chord) == 0:
             if got != []:
                 S.problem(site, [], got)
+            elif isinstance(got, list):
+                # the empty answer is the caller's list: after it (and the "no chord" chord) was filled by the caller,
+                # nothing still has a name and "no chord" still has no notes
+                got += ["C", "E"]
+                nc, _ = call(chords.from_shorthand, "NC")
+                if isinstance(nc, list):
+                    nc.append("G")
+                again, e2 = call(chords.determine, [], flag)
+                nc2, e3 = call(chords.from_shorthand, "NC")
+                S.trans(3)
+                if again != [] or nc2 != []:
+                    S.problem(site + " and from_shorthand('NC') after the caller filled the lists returned before", [[], []], [again, nc2])
         elif len(chord) == 1:
             if got != chord:
                 S.problem(site, chord, got)
